@@ -95,7 +95,24 @@ func checkC18(p *Program, r *Result) {
 			continue
 		}
 		first, split := false, ""
-		for _, ci := range callsIn(fn, func(ssa.CallInstruction) bool { return true }) {
+		// the scan may be shared by both functions through a helper: look at the function and the go/ros functions it calls
+		var regionCalls []ssa.CallInstruction
+		seenF := map[*ssa.Function]bool{fn: true}
+		frontier := []*ssa.Function{fn}
+		for depth := 0; depth < 3 && len(frontier) > 0; depth++ {
+			var next []*ssa.Function
+			for _, f := range frontier {
+				for _, ci := range callsIn(f, func(ssa.CallInstruction) bool { return true }) {
+					regionCalls = append(regionCalls, ci)
+					if g := ci.Common().StaticCallee(); g != nil && g.Blocks != nil && !seenF[g] && p.isRepoFunc(g) && p.funcPkgPath(g) == pkgRos {
+						seenF[g] = true
+						next = append(next, g)
+					}
+				}
+			}
+			frontier = next
+		}
+		for _, ci := range regionCalls {
 			switch n := staticCalleeName(ci.Common()); n {
 			case "bytes.IndexByte", "bytes.Index", "strings.Index", "strings.IndexByte", "bytes.Cut", "strings.Cut":
 				first = true
